@@ -5,6 +5,7 @@ pub mod c07;
 pub mod c09;
 pub mod c10;
 pub mod c14;
+pub mod c15;
 pub mod c18;
 pub mod c19;
 pub mod c20;
@@ -20,5 +21,5 @@ pub fn shards_1(_t: Tier) -> usize {
 }
 
 pub fn registry() -> Vec<PropSpec> {
-    vec![c03::spec(), c07::spec(), c09::spec(), c10::spec(), c14::spec(), c18::spec(), c19::spec(), c20::spec()]
+    vec![c03::spec(), c07::spec(), c09::spec(), c10::spec(), c14::spec(), c15::spec(), c18::spec(), c19::spec(), c20::spec()]
 }
